@@ -1,6 +1,4 @@
-(* Extract/Run.v — the single entry point of the executable model:
-   [run K cmd] decodes a command, runs the model at the exact rationals with
-   the transcendental closures of [K], and encodes the result. *)
+(* Extract/RunCore.v — runner commands 1-99: the core integral models. *)
 From Coq Require Import ZArith QArith Qcanon List.
 From GB Require Import Base.Field Base.FNum Model.Shell Model.MomentInt Model.Spherical
   Model.Assembly Model.Overlap Model.DiffOp Model.OneBody Extract.Sx.
@@ -50,16 +48,3 @@ Definition run_core (K : Fops Qc) (c : Z) (args : list sx) : option sx :=
   | _, _ => None
   end.
 
-Definition dispatchers : list (Fops Qc -> Z -> list sx -> option sx) :=
-  [run_core].
-
-Definition run (K : Fops Qc) (cmd : sx) : sx :=
-  match cmd with
-  | SL (SZ c :: args) =>
-      match fold_left (fun acc d => match acc with Some r => Some r | None => d K c args end)
-                      dispatchers None with
-      | Some r => r
-      | None => err 2
-      end
-  | _ => err 1
-  end.
